@@ -66,7 +66,19 @@ JudgeBranch(l) ==
   /\ l.delivered = <<[v |-> 1000 + l.n + 100, thr |-> "left"], [v |-> 1000 + l.n + 200, thr |-> "right"]>>
   /\ [i \in DOMAIN side("left") |-> side("left")[i].v] = pre \o <<100>>
   /\ [i \in DOMAIN side("right") |-> side("right")[i].v] = pre \o <<200>>
-JudgePart(l) == IF l.part = "conc" THEN JudgeConc(l) ELSE IF l.part = "branch" THEN JudgeBranch(l) ELSE JudgeReconf(l)
+\* ---- sibling instances: a monad built by the same constructor call as one that was then configured with ObserveOn / SubscribeOn is still
+\* unconfigured: its Subscribe runs the effect (constructors with an effect) and OnNext on the subscribing goroutine, before it returns
+JudgeSibling(l) ==
+  /\ l.kind = "ok"
+  /\ l.delivered = <<[v |-> l.n, thr |-> "caller"]>>
+  /\ l.effects = IF l.newSub \in {"New.method", "NewGenerics"} THEN <<[v |-> l.n, thr |-> "caller"]>> ELSE <<>>
+\* ---- a Handler whose first Posts come from n goroutines at once still has ONE goroutine: all n effects observed on it run there, one at a time
+JudgeFresh(l) ==
+  /\ l.kind = "ok" /\ l.maxin = 1
+  /\ Len(l.effects) = l.n /\ {l.effects[i].v : i \in DOMAIN l.effects} = 1..l.n /\ \A i \in DOMAIN l.effects : l.effects[i].thr = "g1"
+  /\ Len(l.delivered) = l.n /\ {l.delivered[i].v : i \in DOMAIN l.delivered} = 1..l.n
+JudgePart(l) == CASE l.part = "conc" -> JudgeConc(l) [] l.part = "branch" -> JudgeBranch(l) [] l.part = "sibling" -> JudgeSibling(l)
+                  [] l.part = "fresh" -> JudgeFresh(l) [] OTHER -> JudgeReconf(l)
 
 \* ---- the monad laws on the denotation (checked by TLC over the bounded program space in MC_MonadIO)
 \* left identity: Just(x).FlatMap(f) behaves as f(x) (plus the invocation of f itself)
